@@ -663,12 +663,23 @@ func oracleUpdater(in input, uo *updObs) []fail {
 			}
 			for fe, frules := range uo.frontRaw {
 				rules := append(append([]c1819.AuthRule{}, frules...), bo.raw...)
-				q := c1819.Request{Base: strings.ToLower(po.Host) + "#" + upath, Path: upath, PathID: po.ID}
 				if po.Back.Allowed != "" && strings.HasPrefix(upath, po.Back.Allowed) {
 					continue
 				}
-				if v := c1819.RunAuth(rules, q, func(string) bool { return false }); v.Served {
-					fs = append(fs, fail{"rendered-rule-missing", fmt.Sprintf("%s: GET %s%s through %s is served without authentication", id, po.Host, upath, fe)})
+				stop := false
+				for _, meth := range []string{"GET", "POST", "OPTIONS", "HEAD", "PUT"} {
+					q := c1819.Request{Base: strings.ToLower(po.Host) + "#" + upath, Path: upath, PathID: po.ID, Method: meth}
+					if v := c1819.RunAuth(rules, q, func(string) bool { return false }); v.Served {
+						key := "rendered-rule-missing"
+						if meth != "GET" {
+							key = "rendered-rule-skips-method"
+						}
+						fs = append(fs, fail{key, fmt.Sprintf("%s: %s %s%s through %s is served without authentication", id, meth, po.Host, upath, fe)})
+						stop = true
+						break
+					}
+				}
+				if stop {
 					break
 				}
 			}
